@@ -324,6 +324,24 @@ def run(ctx):
     else:
         report.nontriv("removals")
     removal_precision(ctx, report, "C20-R5", B["remove"])
+    # ---- R4 (key identity): the cache is a HashMap keyed by the record; a record received again replaces the stored entry (and its
+    # expiry) only if it is the same key, so equality must not look at what legitimately differs between two receptions: the TTL
+    # and the cache-flush bit
+    import c16 as _c16
+    eqb = prog.find("simple_dns::<ResourceRecord as PartialEq>::eq")
+    report.count()
+    if eqb is None:
+        report.lost_anchor("simple_dns::<ResourceRecord as PartialEq>::eq")
+    else:
+        cmp_fields = _c16.fields_used(prog, eqb)
+        extra = sorted(cmp_fields & {"ttl", "cache_flush"})
+        if extra:
+            viol(report, "C20-R4", eqb, "key-identity", "ResourceRecord equality compares %s: a record received again with another TTL (a "
+                 "goodbye, a refresh) is a different HashMap key, so the stored entry keeps its first expiry and the new one is added "
+                 "beside it" % extra)
+        else:
+            report.nontriv("cache key ignores ttl / cache_flush")
+            report.sample({"rule": "R4", "compared": sorted(cmp_fields)})
     report.assumptions += ["behaviour over real elapsed time is not decided (histories with a wall clock); HashMap::insert keeping the old key "
                            "(first cache_flush / ttl fields of a re-received record) is value-level"]
     return report.finish()
